@@ -66,6 +66,7 @@ class Engine:
         self.samples = []
         self.notes = {}
         self.on_path_end = None
+        self._decided = {}
         self.prefer = []         # optional constraints for nicer counterexample models (never affect verdicts)
 
     # -- solver access -------------------------------------------------------
@@ -92,6 +93,15 @@ class Engine:
             return True
         if z3.is_false(cond):
             return False
+        key = cond.get_id()
+        hit = self._decided.get(key)
+        if hit is not None:
+            return hit[0]       # same condition already decided on this path (no new trail entry)
+        v = self._branch(cond)
+        self._decided[key] = (v, cond)
+        return v
+
+    def _branch(self, cond):
         if self.pos < len(self.trail):
             v = self.trail[self.pos][0]
         else:
@@ -209,6 +219,8 @@ class Engine:
                 raise Inconclusive("path budget")
             self.solver.push()
             self.pos = 0
+            self._decided = {}
+            self.prefer = []
             try:
                 fn()
                 self.paths += 1
